@@ -37,7 +37,7 @@ class Ctx:
 
 
 class PackHarness(Harness):
-    def __init__(self, readers=(), writer=False, per_pack=False, compress='NO', cache=False, target=20, do_fsync=True):
+    def __init__(self, readers=(), writer=False, per_pack=False, compress='NO', cache=False, target=20, do_fsync=True, writer2=False):
         self.readers = list(readers)       # list of (kind, pinned)
         self.writer = writer
         self.per_pack = per_pack
@@ -45,7 +45,8 @@ class PackHarness(Harness):
         self.cache = cache
         self.target = target
         self.do_fsync = do_fsync
-        self.name = ('W|' if writer else '') + '|'.join(f'R{k}{"*" if p else ""}' for k, p in readers) + \
+        self.writer2 = writer2
+        self.name = ('W|' if writer else '') + ('W2|' if writer2 else '') + '|'.join(f'R{k}{"*" if p else ""}' for k, p in readers) + \
             f'|P(per_pack={int(per_pack)},{compress}{",cache" if cache else ""}{"" if do_fsync else ",nofsync"})'
 
     def setup(self):
@@ -83,6 +84,9 @@ class PackHarness(Harness):
         acts = []
         if self.writer:
             acts.append(('W', lambda: self._writer(ctx, sched)))
+        if self.writer2:
+            # a second writer storing the same new content and a duplicate of another loose object at the same time
+            acts.append(('W2', lambda: self._writer(ctx, sched, (N, X2))))
         for i, (kind, pinned) in enumerate(self.readers):
             acts.append((f'R{i}', (lambda i=i, kind=kind: self._reader(ctx, sched, i, kind))))
         acts.append(('P', lambda: self._packer(ctx, sched)))
@@ -97,10 +101,10 @@ class PackHarness(Harness):
         finally:
             h.close()
 
-    def _writer(self, ctx, sched):
+    def _writer(self, ctx, sched, contents=(N, X)):
         h = Container(ctx.root)
         try:
-            for content in (N, X):
+            for content in contents:
                 k = h.add_object(content)
                 ctx.obs.append((sched.tick(), 'ack', H(content), k))
         finally:
@@ -238,6 +242,7 @@ def family(tier):
     fam.append((PackHarness(writer=True, per_pack=False), b2 + (1 if q else 0)))
     fam.append((PackHarness(writer=True, per_pack=True, compress='YES'), b2))
     fam.append((PackHarness(readers=[('bulk', False)], writer=True, per_pack=True), b3))
+    fam.append((PackHarness(writer=True, writer2=True, per_pack=True), b3))
     fam.append((PackHarness(readers=[('single', False), ('has', True)], per_pack=False), b3))
     if not q:
         fam.append((PackHarness(readers=[('lazy', True)], writer=True, per_pack=True, compress='YES'), b3))
@@ -298,7 +303,7 @@ def run(tier, report):
 
 def _spec(h):
     return {'readers': h.readers, 'writer': h.writer, 'per_pack': h.per_pack, 'compress': h.compress, 'cache': h.cache, 'target': h.target,
-            'do_fsync': h.do_fsync}
+            'do_fsync': h.do_fsync, 'writer2': h.writer2}
 
 
 def replay(case):
@@ -306,7 +311,7 @@ def replay(case):
     iolayer.install()
     s = case['harness']
     h = PackHarness(readers=[tuple(r) for r in s['readers']], writer=s['writer'], per_pack=s['per_pack'], compress=s['compress'],
-                    cache=s['cache'], target=s['target'], do_fsync=s.get('do_fsync', True))
+                    cache=s['cache'], target=s['target'], do_fsync=s.get('do_fsync', True), writer2=s.get('writer2', False))
     r1 = execute(h, case['choices'])
     r2 = execute(h, case['choices'])
     if [v[0] for v in r1['viol']] != [v[0] for v in r2['viol']]:
